@@ -94,6 +94,12 @@ CHECKS = {
     technique="model-based runtime monitor: ordered reference model stepped in lock-step with IppAttributes::add, compared after every operation; iterator traversal vs model",
     text="All add-sequences of length <= 4 (thorough 5) over a 16-operation alphabet (4 group kinds x 2 names x 2 values) are run from the empty container and from two parser-produced containers with repeated and empty groups, comparing groups(), groups_of(kind) for all kinds after every add and into_groups() at the end with a Vec-based model; random sequences of up to 200 adds with G1 values extend this. Value traversal is compared with the model (set in order, collection in member-name order, scalar once, then None thrice) for every kind, wide and empty containers and random values.",
     note="Enumeration is complete for the stated alphabet and lengths; beyond that sampling."),
+
+ "C20": dict(
+    level="exploration", design="2/C20",
+    technique="runtime monitor: differential round-trip oracle through serde_json with the serde feature compiled in (separate harness crate), mirror equality",
+    text="The harness builds ipp with the serde feature (which the repository's suite never compiles), serialises each generated message (payload attached) to JSON, deserialises it and compares header, groups, names and values with the mirror of what was serialised; the payload must read as empty afterwards. IppAttributes alone and every IppValue alone go through the same round trip. All 22 kinds, raw-octet values, nested collections (up to the carrier's nesting limit) and boundary lengths are covered by the shapes prefix and seeded random messages.",
+    note="JSON (serde_json) as the carrier; messages nested deeper than 20 collection levels are skipped because serde_json refuses deeper documents."),
 }
 
 REASON_TODO = "check not built yet in this revision of /verif (planned; see DESIGN.md section 2)"
